@@ -546,10 +546,6 @@ Proof.
   unfold get_line_attribution, note_attribution. destruct (first_att log path); [apply scan_rev|reflexivity].
 Qed.
 
-(* relational reading of last_listing: the LAST entry that lists the line and has a prompt record *)
-Definition listed (log : alog) foreign (e : entry) (line : N) : Prop :=
-  entry_contains e line = true /\ find_prompt log foreign (e_hash e) <> None.
-
 Lemma last_listing_some log foreign es line h p :
   last_listing log foreign es line = Some (h, p) <->
   exists pre e post, es = pre ++ e :: post /\ entry_contains e line = true /\ e_hash e = h
@@ -561,7 +557,7 @@ Proof.
   - rewrite last_listing_snoc. split.
     + destruct (entry_contains e line) eqn:Ec.
       * destruct (find_prompt log foreign (e_hash e)) as [q|] eqn:Ef.
-        -- intro H. inversion H; subst. exists es, e, []. repeat split; auto. intros ? [].
+        -- intro H. inversion H; subst. exists es, e, []. repeat split; auto; try (intros ? []).
         -- intro H. apply IH in H as (pre & e0 & post & -> & A & B & C & D).
            exists pre, e0, (post ++ [e]). rewrite <- app_assoc. repeat split; auto.
            intros e' He'. apply in_app_or in He' as [He'|[<-|[]]]; [apply D, He'|].
@@ -601,17 +597,6 @@ Proof.
       destruct (find_prompt log foreign (e_hash e)); [|exact IHr].
       exfalso. apply He. split; [reflexivity|discriminate].
 Qed.
-
-(* one line of output, as a function of the line's blame facts and the lookup path *)
-Definition line_out (o : opts) (notes : list N -> option alog) foreign (path : list N) (b : bline) : oline :=
-  match notes (bl_sha b) with
-  | Some log =>
-      match get_line_attribution log foreign path (bl_orig b) with
-      | Some (hash, p) => mkOline (bl_final b) (ai_name o hash p) (Some hash)
-      | None => mkOline (bl_final b) (human_name o (bl_author b)) None
-      end
-  | None => mkOline (bl_final b) (nolog_name o (bl_author b)) None
-  end.
 
 Lemma overlay_hunk_lines o notes foreign path h :
   overlay_hunk o notes foreign path h = map (line_out o notes foreign path) (hunk_lines h).
@@ -666,4 +651,512 @@ Proof.
     apply map_ext. intro x. rewrite <- (line_out_spec o notes foreign path) by reflexivity. reflexivity.
   - apply Forall_forall. intros h Hh. apply in_map_iff in Hh as (g & <- & Hg).
     apply hunk_of_entry_wf. unfold wf_entries in Hwf. rewrite forallb_forall in Hwf. apply Hwf, Hg.
+Qed.
+
+(* ================================================================== 5. JSON grouping *)
+
+Definition tag (id : list N) (ls : list N) : list (N * list N) := map (fun l => (l, id)) ls.
+
+Lemma parse_key_range_key rs re :
+  rs <= re -> re <= u32_max -> parse_key (range_key rs re) = Some (rs, re).
+Proof.
+  intros Hle Hb. unfold range_key, parse_key. destruct (rs =? re) eqn:E.
+  - apply N.eqb_eq in E. subst re.
+    assert (Hm : mem c_dash (print_N rs) = false)
+      by (apply mem_digits_false; [reflexivity|apply print_N_digits]).
+    pose proof (split_first_spec c_dash (print_N rs)) as S.
+    destruct (split_first c_dash (print_N rs)) as [[a b]|].
+    + destruct S as [S1 S2]. rewrite S1 in Hm. rewrite mem_false_app in Hm. cbn in Hm.
+      rewrite N.eqb_refl in Hm. rewrite orb_true_r in Hm. discriminate.
+    + rewrite parse_u32_print by lia. reflexivity.
+  - change ([c_dash] ++ print_N re) with (c_dash :: print_N re).
+    rewrite split_first_app by (apply mem_digits_false; [reflexivity|apply print_N_digits]).
+    rewrite !parse_u32_print by lia. reflexivity.
+Qed.
+
+Lemma expand_groups gs : forall acc,
+  (forall g, In g gs -> fst (fst g) <= snd (fst g) /\ snd (fst g) <= u32_max) ->
+  expand_json (map (fun g => (range_key (fst (fst g)) (snd (fst g)), snd g)) gs) = Some acc ->
+  acc = flat_map (fun g => tag (snd g) (span (fst (fst g)) (snd (fst g)))) gs.
+Proof.
+  induction gs as [|[[rs re] id] gs IH]; intros acc Hb H.
+  - cbn in H. inversion H. reflexivity.
+  - cbn [map expand_json fst snd] in H.
+    destruct (Hb ((rs, re), id)) as [A B]; [left; reflexivity|]. cbn [fst snd] in A, B.
+    rewrite parse_key_range_key in H by assumption.
+    destruct (expand_json _) as [r|] eqn:E; [|discriminate]. inversion H; subst.
+    cbn [flat_map fst snd]. unfold tag at 1. f_equal. apply IH; [|reflexivity].
+    intros g Hg. apply Hb. right. exact Hg.
+Qed.
+
+Lemma group_runs_expand l : forall rs re id,
+  rs <= re ->
+  flat_map (fun g => tag (snd g) (span (fst (fst g)) (snd (fst g)))) (group_runs rs re id l)
+  = tag id (span rs re) ++ l.
+Proof.
+  induction l as [|[ln p] l IH]; intros rs re id Hle.
+  - cbn. rewrite app_nil_r. reflexivity.
+  - cbn [group_runs]. destruct (str_eqb p id && (ln =? re + 1)) eqn:E.
+    + apply andb_true_iff in E as [E1 E2]. apply str_eqb_eq in E1. apply N.eqb_eq in E2. subst p ln.
+      rewrite IH by lia. rewrite span_snoc by lia. unfold tag. rewrite map_app. rewrite <- app_assoc. reflexivity.
+    + cbn [flat_map fst snd]. rewrite IH by lia. rewrite span_single. reflexivity.
+Qed.
+
+Lemma group_runs_bounds l : forall rs re id g,
+  rs <= re -> re <= u32_max -> (forall kv, In kv l -> fst kv <= u32_max) ->
+  In g (group_runs rs re id l) -> fst (fst g) <= snd (fst g) /\ snd (fst g) <= u32_max.
+Proof.
+  induction l as [|[ln p] l IH]; intros rs re id g Hle Hb Hl Hg.
+  - cbn in Hg. destruct Hg as [<-|[]]. cbn. auto.
+  - cbn [group_runs] in Hg.
+    assert (Hln : ln <= u32_max) by (apply (Hl (ln, p)); left; reflexivity).
+    assert (Hl' : forall kv, In kv l -> fst kv <= u32_max) by (intros kv Hkv; apply Hl; right; exact Hkv).
+    destruct (str_eqb p id && (ln =? re + 1)) eqn:E.
+    + apply andb_true_iff in E as [_ E2]. apply N.eqb_eq in E2.
+      apply (IH rs ln id g); auto. lia.
+    + destruct Hg as [<-|Hg]; [cbn; auto|]. apply (IH ln ln p g); auto. lia.
+Qed.
+
+Lemma expand_json_total gs :
+  (forall g, In g gs -> fst (fst g) <= snd (fst g) /\ snd (fst g) <= u32_max) ->
+  expand_json (map (fun g => (range_key (fst (fst g)) (snd (fst g)), snd g)) gs) <> None.
+Proof.
+  induction gs as [|[[rs re] id] gs IH]; intro Hb; [discriminate|].
+  cbn [map expand_json fst snd].
+  destruct (Hb ((rs, re), id)) as [A B]; [left; reflexivity|]. cbn [fst snd] in A, B.
+  rewrite parse_key_range_key by assumption.
+  assert (IH' : expand_json (map (fun g => (range_key (fst (fst g)) (snd (fst g)), snd g)) gs) <> None)
+    by (apply IH; intros g Hg; apply Hb; right; exact Hg).
+  destruct (expand_json _); [discriminate|congruence].
+Qed.
+
+(* expanding the `a-b` keys of the JSON output gives back exactly the AI lines it was built from *)
+Theorem json_expand ai :
+  (forall kv, In kv ai -> fst kv <= u32_max) ->
+  expand_json (json_lines ai) = Some ai.
+Proof.
+  intro Hb. unfold json_lines, json_groups. destruct ai as [|[l p] t]; [reflexivity|].
+  assert (Hl : l <= u32_max) by (apply (Hb (l, p)); left; reflexivity).
+  assert (Ht : forall kv, In kv t -> fst kv <= u32_max) by (intros kv Hkv; apply Hb; right; exact Hkv).
+  assert (Hg : forall g, In g (group_runs l l p t) -> fst (fst g) <= snd (fst g) /\ snd (fst g) <= u32_max)
+    by (intros g; apply group_runs_bounds; auto; lia).
+  destruct (expand_json _) as [acc|] eqn:E.
+  - apply expand_groups in E; [|exact Hg]. rewrite group_runs_expand in E by lia.
+    rewrite span_single in E. subst acc. reflexivity.
+  - exfalso. revert E. apply expand_json_total. exact Hg.
+Qed.
+
+Lemma restrict_bounded {A} rs (m : list (N * A)) :
+  (forall kv, In kv m -> fst kv <= u32_max) -> forall kv, In kv (restrict rs m) -> fst kv <= u32_max.
+Proof. intros H kv Hkv. apply filter_In in Hkv as [Hkv _]. apply H, Hkv. Qed.
+
+(* restricting to -L ranges and then grouping = grouping and then restricting *)
+Theorem json_restrict rs ai :
+  (forall kv, In kv ai -> fst kv <= u32_max) ->
+  expand_json (json_lines (restrict rs ai)) = option_map (restrict rs) (expand_json (json_lines ai)).
+Proof.
+  intro Hb. rewrite (json_expand ai Hb). rewrite json_expand by (apply restrict_bounded, Hb). reflexivity.
+Qed.
+
+(* ---- the line map and the prompt set built by the overlay ---- *)
+
+Definition keys_gt (k : N) (m : list (N * list N)) : Prop := forall kv, In kv m -> k < fst kv.
+
+Fixpoint sorted_map (m : list (N * list N)) : Prop :=
+  match m with
+  | [] => True
+  | kv :: m' => keys_gt (fst kv) m' /\ sorted_map m'
+  end.
+
+Lemma map_insert_In k v m kv :
+  sorted_map m ->
+  (In kv (map_insert k v m) <-> kv = (k, v) \/ (In kv m /\ fst kv <> k)).
+Proof.
+  induction m as [|[k' v'] m IH]; intro Hs.
+  - cbn. split; [intros [<-|[]]; auto|intros [->|[[] _]]; auto].
+  - destruct Hs as [Hgt Hs]. cbn [fst] in Hgt. cbn [map_insert].
+    destruct (k <? k') eqn:E1.
+    + apply N.ltb_lt in E1. split.
+      * intros [<-|H]; [auto|]. right. split; [exact H|].
+        destruct H as [<-|H]; [cbn; lia|]. apply Hgt in H. lia.
+      * intros [->|[H _]]; [left; reflexivity|right; exact H].
+    + destruct (k =? k') eqn:E2.
+      * apply N.eqb_eq in E2. subst k'. split.
+        -- intros [<-|H]; [auto|]. right. split; [right; exact H|]. apply Hgt in H. lia.
+        -- intros [->|[[<-|H] Hne]]; [left; reflexivity|cbn in Hne; congruence|right; exact H].
+      * apply N.eqb_neq in E2. split.
+        -- intros [<-|H]; [right; split; [left; reflexivity|cbn; congruence]|].
+           apply IH in H; [|exact Hs]. destruct H as [->|[H1 H2]]; [auto|right; split; [right; exact H1|exact H2]].
+        -- intros [->|[[<-|H] Hne]].
+           ++ right. apply IH; [exact Hs|]. left. reflexivity.
+           ++ left. reflexivity.
+           ++ right. apply IH; [exact Hs|]. right. split; assumption.
+Qed.
+
+Lemma map_insert_sorted k v m : sorted_map m -> sorted_map (map_insert k v m).
+Proof.
+  induction m as [|[k' v'] m IH]; intro Hs; [cbn; split; [intros ? []|exact I]|].
+  pose proof Hs as Hs0. destruct Hs as [Hgt Hs]. cbn [fst] in Hgt. cbn [map_insert].
+  destruct (k <? k') eqn:E1.
+  - apply N.ltb_lt in E1. cbn [sorted_map fst]. split; [|exact Hs0].
+    intros kv [<-|H]; [cbn; lia|]. apply Hgt in H. lia.
+  - destruct (k =? k') eqn:E2.
+    + apply N.eqb_eq in E2. subst k'. cbn [sorted_map fst]. split; assumption.
+    + apply N.eqb_neq in E2. apply N.ltb_ge in E1. cbn [sorted_map fst]. split; [|apply IH, Hs].
+      intros kv H. apply map_insert_In in H; [|exact Hs]. destruct H as [->|[H _]]; [cbn; lia|apply Hgt, H].
+Qed.
+
+Definition ins (m : list (N * list N)) (x : oline) := map_insert (ol_line x) (ol_name x) m.
+
+Lemma fold_ins_sorted ols : forall m, sorted_map m -> sorted_map (fold_left ins ols m).
+Proof. induction ols as [|x ols IH]; intros m Hm; [exact Hm|]. cbn. apply IH, map_insert_sorted, Hm. Qed.
+
+Lemma fold_ins_In ols : forall m kv,
+  sorted_map m -> NoDup (map ol_line ols) ->
+  (In kv (fold_left ins ols m) <->
+   (exists x, In x ols /\ kv = (ol_line x, ol_name x)) \/ (In kv m /\ ~ In (fst kv) (map ol_line ols))).
+Proof.
+  induction ols as [|x ols IH]; intros m kv Hm Hnd.
+  - cbn. split; [intro H; right; split; [exact H|intros []]|intros [(x & [] & _)|[H _]]; exact H].
+  - inversion Hnd as [|? ? Hnx Hnd']; subst. cbn [fold_left].
+    rewrite IH; [|apply map_insert_sorted, Hm|exact Hnd']. unfold ins. rewrite map_insert_In by exact Hm.
+    cbn [map In]. split.
+    + intros [(y & Hy & ->)|[[->|[H1 H2]] H3]].
+      * left. exists y. auto.
+      * left. exists x. auto.
+      * right. split; [exact H1|]. intros [E|E]; [congruence|contradiction].
+    + intros [(y & [<-|Hy] & ->)|[H1 H2]].
+      * right. split; [left; reflexivity|]. exact Hnx.
+      * left. exists y. auto.
+      * right. split; [right; split; [exact H1|]|]; intro; apply H2; auto.
+Qed.
+
+Lemma line_authors_sorted ols : sorted_map (line_authors ols).
+Proof. apply (fold_ins_sorted ols []). exact I. Qed.
+
+Lemma line_authors_In ols kv :
+  NoDup (map ol_line ols) ->
+  (In kv (line_authors ols) <-> exists x, In x ols /\ kv = (ol_line x, ol_name x)).
+Proof.
+  intro Hnd. unfold line_authors. change (fun m x => map_insert (ol_line x) (ol_name x) m) with ins.
+  rewrite fold_ins_In by (cbn; auto). split; [intros [H|[[] _]]; exact H|auto].
+Qed.
+
+Lemma sorted_find m l v :
+  sorted_map m -> In (l, v) m -> find (fun kv => fst kv =? l) m = Some (l, v).
+Proof.
+  induction m as [|[k' v'] m IH]; intros Hs Hin; [destruct Hin|].
+  destruct Hs as [Hgt Hs]. cbn [fst] in Hgt. cbn [find fst].
+  destruct Hin as [E|Hin].
+  - inversion E; subst. rewrite N.eqb_refl. reflexivity.
+  - pose proof (Hgt _ Hin) as Hlt. cbn in Hlt. assert (k' =? l = false) as -> by lia. apply IH; assumption.
+Qed.
+
+Lemma set_add_In h s x : In x (set_add h s) <-> x = h \/ In x s.
+Proof.
+  induction s as [|y s IH]; cbn [set_add].
+  - cbn. split; [intros [<-|[]]; auto|intros [->|[]]; auto].
+  - destruct (str_eqb y h) eqn:E.
+    + apply str_eqb_eq in E. subst y. cbn. split; [auto|]. intros [->|H]; auto.
+    + cbn. rewrite IH. tauto.
+Qed.
+
+Lemma prompt_records_In ols h :
+  In h (prompt_records ols) <-> exists x, In x ols /\ ol_ai x = Some h.
+Proof.
+  unfold prompt_records.
+  assert (G : forall s, In h (fold_left (fun s x => match ol_ai x with Some h => set_add h s | None => s end) ols s)
+                    <-> (exists x, In x ols /\ ol_ai x = Some h) \/ In h s).
+  { induction ols as [|x ols IH]; intro s.
+    - cbn. split; [auto|]. intros [(x & [] & _)|H]. exact H.
+    - cbn [fold_left]. rewrite IH. destruct (ol_ai x) as [h'|] eqn:E.
+      + rewrite set_add_In. split.
+        * intros [(y & Hy & Ey)|[->|H]]; [left; exists y; cbn; auto|left; exists x; cbn; auto|auto].
+        * intros [(y & [<-|Hy] & Ey)|H]; [right; left; congruence|left; exists y; auto|auto].
+      + split.
+        * intros [(y & Hy & Ey)|H]; [left; exists y; cbn; auto|auto].
+        * intros [(y & [<-|Hy] & Ey)|H]; [congruence|left; exists y; auto|auto]. }
+  rewrite G. cbn. tauto.
+Qed.
+
+Lemma existsb_str_In v prs : existsb (str_eqb v) prs = true <-> In v prs.
+Proof.
+  rewrite existsb_exists. split.
+  - intros (x & Hx & E). apply str_eqb_eq in E. subst. exact Hx.
+  - intro H. exists v. split; [exact H|apply str_eqb_refl].
+Qed.
+
+(* ---- JSON and the default format read the same attribution ---- *)
+
+Lemma line_out_ai o notes foreign path b h p :
+  attribution_of notes foreign path b = Some (h, p) ->
+  line_out o notes foreign path b = mkOline (bl_final b) (ai_name o h p) (Some h).
+Proof.
+  unfold attribution_of, line_out. destruct (notes (bl_sha b)); [|discriminate]. intros ->. reflexivity.
+Qed.
+
+Lemma line_out_human o notes foreign path b :
+  attribution_of notes foreign path b = None ->
+  line_out o notes foreign path b = mkOline (bl_final b) (fallback_name o notes b) None.
+Proof.
+  unfold attribution_of, line_out, fallback_name. destruct (notes (bl_sha b)); [|reflexivity]. intros ->. reflexivity.
+Qed.
+
+Lemma line_out_line o notes foreign path b : ol_line (line_out o notes foreign path b) = bl_final b.
+Proof.
+  unfold line_out. destruct (notes (bl_sha b)); [|reflexivity].
+  destruct (get_line_attribution _ _ _ _) as [[? ?]|]; reflexivity.
+Qed.
+
+Section Agree.
+  Variable o : opts.
+  Variable notes : list N -> option alog.
+  Variable foreign : list N -> option prompt.
+  Variable path : list N.
+  Variable bl : list bline.
+  Hypothesis Hnd : NoDup (map bl_final bl).
+
+  Let ols_json := map (line_out (json_opts o) notes foreign path) bl.
+  Let ols_tool := map (line_out (tool_opts o) notes foreign path) bl.
+  Let json_ai := ai_lines (line_authors ols_json) (prompt_records ols_json).
+
+  (* no human display name is literally one of the prompt hashes in play *)
+  Hypothesis Hnames : forall b, In b bl ->
+    ~ In (fallback_name (json_opts o) notes b) (prompt_records ols_json).
+
+  Lemma nd_lines o' : NoDup (map ol_line (map (line_out o' notes foreign path) bl)).
+  Proof.
+    rewrite map_map. erewrite map_ext; [exact Hnd|]. intro b. apply line_out_line.
+  Qed.
+
+  Theorem json_default_agree_ai b h p :
+    In b bl -> attribution_of notes foreign path b = Some (h, p) ->
+    In (bl_final b, h) json_ai
+    /\ default_author (line_authors ols_tool) (bl_author b) (bl_final b) = p_tool p.
+  Proof.
+    intros Hb Ha. split.
+    - unfold json_ai, ai_lines. apply filter_In. split.
+      + apply line_authors_In; [apply nd_lines|]. exists (line_out (json_opts o) notes foreign path b).
+        split; [apply in_map, Hb|]. rewrite (line_out_ai _ _ _ _ _ _ _ Ha). reflexivity.
+      + cbn [snd]. apply existsb_str_In. apply prompt_records_In.
+        exists (line_out (json_opts o) notes foreign path b). split; [apply in_map, Hb|].
+        rewrite (line_out_ai _ _ _ _ _ _ _ Ha). reflexivity.
+    - unfold default_author. rewrite (sorted_find _ (bl_final b) (p_tool p)); [reflexivity|apply line_authors_sorted|].
+      apply line_authors_In; [apply nd_lines|]. exists (line_out (tool_opts o) notes foreign path b).
+      split; [apply in_map, Hb|]. rewrite (line_out_ai _ _ _ _ _ _ _ Ha). reflexivity.
+  Qed.
+
+  Theorem json_default_agree_human b :
+    In b bl -> attribution_of notes foreign path b = None ->
+    (forall h, ~ In (bl_final b, h) json_ai)
+    /\ default_author (line_authors ols_tool) (bl_author b) (bl_final b) = fallback_name (tool_opts o) notes b.
+  Proof.
+    intros Hb Ha. split.
+    - intros h Hin. unfold json_ai, ai_lines in Hin. apply filter_In in Hin as [H1 H2]. cbn [snd] in H2.
+      apply existsb_str_In in H2.
+      apply line_authors_In in H1; [|apply nd_lines]. destruct H1 as (x & Hx & E).
+      apply in_map_iff in Hx as (b' & <- & Hb').
+      rewrite line_out_line in E. inversion E as [[E1 E2]].
+      assert (b' = b).
+      { clear - Hnd Hb Hb' E1. induction bl as [|c l IH]; [destruct Hb|].
+        inversion Hnd as [|? ? Hn Hnd']; subst. cbn in Hn.
+        destruct Hb as [->|Hb]; destruct Hb' as [->|Hb'']; auto.
+        - exfalso. apply Hn. rewrite E1. apply in_map, Hb''.
+        - exfalso. apply Hn. rewrite <- E1. apply in_map, Hb. }
+      subst b'. rewrite (line_out_human _ _ _ _ _ Ha) in E2. cbn [ol_name] in E2.
+      apply (Hnames b Hb). rewrite <- E2. exact H2.
+    - unfold default_author.
+      rewrite (sorted_find _ (bl_final b) (fallback_name (tool_opts o) notes b)); [reflexivity|apply line_authors_sorted|].
+      apply line_authors_In; [apply nd_lines|]. exists (line_out (tool_opts o) notes foreign path b).
+      split; [apply in_map, Hb|]. rewrite (line_out_human _ _ _ _ _ Ha). reflexivity.
+  Qed.
+End Agree.
+
+(* ================================================================== 6. ranges, witnesses, known class *)
+
+Theorem ranges_validated total requested rs :
+  prepare_ranges total requested = Ok rs ->
+  forall r, In r rs -> 1 <= fst r /\ fst r <= snd r /\ snd r <= total.
+Proof.
+  unfold prepare_ranges. destruct (forallb _ _) eqn:E; [|discriminate]. intro H. inversion H; subst.
+  intros r Hr. rewrite forallb_forall in E. apply E in Hr. unfold range_valid in Hr. lia.
+Qed.
+
+(* git blame accepts an empty file (exit 0, no lines); the request preparation rejects it *)
+Theorem empty_file_rejected : prepare_ranges 0 [] = Err.
+Proof. reflexivity. Qed.
+
+(* a single number is read as n,n (git reads `-L n` as n..end of file) *)
+Theorem single_number_range n : n <= u32_max -> parse_line_range (print_N n) = Some (n, n).
+Proof.
+  intro H. unfold parse_line_range.
+  assert (Hm : mem c_comma (print_N n) = false)
+    by (apply mem_digits_false; [reflexivity|apply print_N_digits]).
+  pose proof (split_first_spec c_comma (print_N n)) as S.
+  destruct (split_first c_comma (print_N n)) as [[a b]|].
+  - destruct S as [S1 S2]. rewrite S1 in Hm. rewrite mem_false_app in Hm. cbn in Hm.
+    rewrite N.eqb_refl in Hm. rewrite orb_true_r in Hm. discriminate.
+  - rewrite parse_u32_print by exact H. reflexivity.
+Qed.
+
+Lemma oline_eqb_refl x : oline_eqb x x = true.
+Proof. unfold oline_eqb. rewrite N.eqb_refl, str_eqb_refl, opt_str_eqb_refl. reflexivity. Qed.
+
+Lemma olines_eqb_refl l : olines_eqb l l = true.
+Proof. induction l as [|x l IH]; [reflexivity|]. cbn. rewrite oline_eqb_refl, IH. reflexivity. Qed.
+
+Definition pipeline_meets_spec (o : opts) notes foreign (path : list N) (es : list gentry) : bool :=
+  match blame_lines o notes foreign path (print_line_porcelain es) with
+  | Ok ls => olines_eqb ls (map (spec_line o notes foreign) (glines es))
+  | _ => false
+  end.
+
+Lemma pipeline_meets_spec_false o notes foreign path es :
+  pipeline_meets_spec o notes foreign path es = false ->
+  blame_lines o notes foreign path (print_line_porcelain es)
+  <> Ok (map (spec_line o notes foreign) (glines es)).
+Proof.
+  unfold pipeline_meets_spec. intros H E. rewrite E in H. rewrite olines_eqb_refl in H. discriminate.
+Qed.
+
+(* ---- witnesses (ASCII: f.txt = 102 46 116 120 116, g.txt = 103 46 116 120 116) ---- *)
+Definition w_f : list N := [102; 46; 116; 120; 116].
+Definition w_g : list N := [103; 46; 116; 120; 116].
+Definition w_sha1 : list N := [49; 97; 50; 98].       (* 1a2b *)
+Definition w_sha2 : list N := [99; 51; 100; 52].      (* c3d4 *)
+Definition w_h1 : list N := [104; 49].                 (* session hashes h1, h2 *)
+Definition w_h2 : list N := [104; 50].
+Definition w_user : list N := [85; 115; 101; 114].    (* User *)
+
+Definition w_entry (sha : list N) (orig final num : N) (fname : list N) (bnd : bool) : gentry :=
+  mkG sha orig final num w_user [60; 117; 62] [49] [43; 48] w_user [60; 117; 62] [49] [43; 48]
+      [109; 115; 103] None bnd fname (repeat [120] (N.to_nat num)).
+
+(* commit 1a2b created f.txt, lines 2-3 by session h1 (later entry h2 also claims line 3);
+   commit c3d4 renamed f.txt to g.txt without editing it *)
+Definition w_log : alog :=
+  mkAlog [mkFatt w_f [mkEntry w_h1 [Range 2 3]; mkEntry w_h2 [Single 3]]]
+         [(w_h1, mkPrompt [116; 49] (Some w_user)); (w_h2, mkPrompt [116; 50] None)].
+Definition w_notes (sha : list N) : option alog := if str_eqb sha w_sha1 then Some w_log else None.
+Definition w_foreign (h : list N) : option prompt := None.
+Definition w_opts : opts := mkOpts true false false true.
+
+(* blame of g.txt after the rename: git says every line comes from 1a2b where the file was f.txt *)
+Definition w_renamed : list gentry := [w_entry w_sha1 1 1 4 w_f true].
+(* blame of f.txt before the rename (same facts, requested path = path in the commit) *)
+Definition w_plain : list gentry := [w_entry w_sha1 1 1 4 w_f true; w_entry w_sha2 1 5 1 w_f false].
+
+Theorem rename_refuted :
+  exists o notes foreign path es,
+    wf_entries es = true /\ Known_C09 path es /\
+    blame_lines o notes foreign path (print_line_porcelain es)
+    <> Ok (map (spec_line o notes foreign) (glines es)).
+Proof.
+  exists w_opts, w_notes, w_foreign, w_g, w_renamed. split; [reflexivity|]. split.
+  - exists (mkGline 1 1 w_sha1 w_user true w_f). split; [left; reflexivity|discriminate].
+  - apply pipeline_meets_spec_false. vm_compute. reflexivity.
+Qed.
+
+(* what the renamed file's blame reports: every line human, although the note lists lines 2-3 *)
+Example rename_all_human :
+  blame_lines w_opts w_notes w_foreign w_g (print_line_porcelain w_renamed)
+  = Ok [mkOline 1 w_user None; mkOline 2 w_user None; mkOline 3 w_user None; mkOline 4 w_user None]
+  /\ map (spec_line w_opts w_notes w_foreign) (glines w_renamed)
+     = [mkOline 1 w_user None; mkOline 2 w_h1 (Some w_h1); mkOline 3 w_h2 (Some w_h2); mkOline 4 w_user None].
+Proof. split; vm_compute; reflexivity. Qed.
+
+(* non-vacuity: a non-trivial input meets the hypotheses of overlay_spec and has AI lines *)
+Example nonvacuous_plain :
+  wf_entries w_plain = true
+  /\ (forall x, In x (glines w_plain) -> gl_filename x = w_f)
+  /\ blame_lines w_opts w_notes w_foreign w_f (print_line_porcelain w_plain)
+     = Ok [mkOline 1 w_user None; mkOline 2 w_h1 (Some w_h1); mkOline 3 w_h2 (Some w_h2);
+           mkOline 4 w_user None; mkOline 5 w_user None].
+Proof.
+  split; [reflexivity|]. split.
+  - intros x Hx. vm_compute in Hx. repeat (destruct Hx as [<-|Hx]; [reflexivity|]). destruct Hx.
+  - vm_compute. reflexivity.
+Qed.
+
+Example nonvacuous_json :
+  json_lines (ai_lines [(1, w_user); (2, w_h1); (3, w_h1); (4, w_h2); (6, w_h2)] [w_h1; w_h2])
+  = [([50; 45; 51], w_h1); ([52], w_h2); ([54], w_h2)].
+Proof. vm_compute. reflexivity. Qed.
+
+Example nonvacuous_split :
+  blame_hunks w_opts w_notes w_foreign w_f (print_line_porcelain w_plain)
+  = Ok [mkHunk 1 1 1 1 w_sha1 w_user true None; mkHunk 2 2 2 2 w_sha1 w_user true (Some w_user);
+        mkHunk 3 4 3 4 w_sha1 w_user true None; mkHunk 5 5 1 1 w_sha2 w_user false None].
+Proof. vm_compute. reflexivity. Qed.
+
+(* ================================================================== 7. statements in their final form *)
+
+Theorem later_entry_wins log foreign path line h p :
+  note_attribution log foreign path line = Some (h, p) <->
+  exists fa pre e post,
+    first_att log path = Some fa /\ f_entries fa = pre ++ e :: post
+    /\ entry_contains e line = true /\ e_hash e = h /\ find_prompt log foreign h = Some p
+    /\ (forall e', In e' post -> ~ listed log foreign e' line).
+Proof.
+  unfold note_attribution. destruct (first_att log path) as [fa|].
+  - rewrite last_listing_some. split.
+    + intros (pre & e & post & A & B). exists fa, pre, e, post. auto.
+    + intros (fa' & pre & e & post & E & A & B). inversion E; subst. exists pre, e, post. auto.
+  - split; [discriminate|]. intros (fa & _ & _ & _ & E & _). discriminate.
+Qed.
+
+Theorem not_listed_is_human log foreign path line :
+  note_attribution log foreign path line = None <->
+  (first_att log path = None \/
+   exists fa, first_att log path = Some fa /\ forall e, In e (f_entries fa) -> ~ listed log foreign e line).
+Proof.
+  unfold note_attribution. destruct (first_att log path) as [fa|].
+  - rewrite last_listing_none. split.
+    + intro H. right. exists fa. auto.
+    + intros [E|(fa' & E & H)]; [discriminate|]. inversion E; subst. exact H.
+  - split; auto.
+Qed.
+
+Theorem json_default_agree o notes foreign path bl :
+  NoDup (map bl_final bl) ->
+  names_not_hashes o notes foreign path bl ->
+  forall b, In b bl ->
+    match attribution_of notes foreign path b with
+    | Some (h, p) =>
+        In (bl_final b, h) (json_ai_lines o notes foreign path bl)
+        /\ default_column o notes foreign path bl b = p_tool p
+    | None =>
+        (forall h, ~ In (bl_final b, h) (json_ai_lines o notes foreign path bl))
+        /\ default_column o notes foreign path bl b = fallback_name (tool_opts o) notes b
+    end.
+Proof.
+  intros Hnd Hn b Hb. destruct (attribution_of notes foreign path b) as [[h p]|] eqn:E.
+  - exact (json_default_agree_ai o notes foreign path bl Hnd b h p Hb E).
+  - exact (json_default_agree_human o notes foreign path bl Hnd Hn b Hb E).
+Qed.
+
+Theorem json_output_expands o notes foreign path bl :
+  (forall b, In b bl -> bl_final b <= u32_max) ->
+  expand_json (json_lines (json_ai_lines o notes foreign path bl)) = Some (json_ai_lines o notes foreign path bl).
+Proof.
+  intro Hb. apply json_expand. intros kv Hkv. unfold json_ai_lines, ai_lines in Hkv.
+  apply filter_In in Hkv as [Hkv _].
+  (* every key of the line map is a line of bl *)
+  assert (G : forall ols m, (forall kv, In kv m -> fst kv <= u32_max) ->
+                            (forall x, In x ols -> ol_line x <= u32_max) ->
+                            forall kv, In kv (fold_left ins ols m) -> fst kv <= u32_max).
+  { induction ols as [|x ols IH]; intros m Hm Ho kv0 H0; [apply Hm, H0|].
+    cbn [fold_left] in H0. revert H0. apply IH.
+    - intros kv1 H1. unfold ins in H1.
+      assert (In kv1 (map_insert (ol_line x) (ol_name x) m) -> kv1 = (ol_line x, ol_name x) \/ In kv1 m) as W.
+      { clear. induction m as [|[k' v'] m IHm]; cbn [map_insert].
+        - intros [<-|[]]. auto.
+        - destruct (ol_line x <? k'); [intros [<-|H]; auto|].
+          destruct (ol_line x =? k'); [intros [<-|H]; cbn; auto|].
+          intros [<-|H]; [cbn; auto|]. apply IHm in H as [->|H]; cbn; auto. }
+      apply W in H1 as [->|H1]; [cbn; apply Ho; left; reflexivity|apply Hm, H1].
+    - intros y Hy. apply Ho. right. exact Hy. }
+  revert Hkv. unfold line_authors. apply (G _ []).
+  - intros ? [].
+  - intros x Hx. apply in_map_iff in Hx as (b & <- & Hb'). rewrite line_out_line. apply Hb, Hb'.
 Qed.
